@@ -8,8 +8,8 @@ SE2  SemanticSddBuilder::sdd_eq is `hash(a) == hash(b)` on every path.  The sema
      neither trimming nor a unique pointer per function, so pointer equality may answer "different"
      for equal functions; no path may decide equality from the pointers.
 """
-from . import mir
-from .base import inst, OK, VIOLATION, UNDECIDED, strip
+from . import mir, canon
+from .base import inst, OK, VIOLATION, UNDECIDED, strip, verdict_of, errtext
 from .facts import CheckerError
 from .mir import show
 from .dt import leaves
@@ -134,14 +134,13 @@ def hash_definitions(prog):
     r = strip(fn.terms.ret)
     errs = []
     inner = strip(r[2][0]) if mir.is_call(r, "new") and r[2] else r
-    if not (mir.is_call(inner, "sum") and mir.is_call(strip(inner[2][0]), "map") and "arg1.nodes" in show(strip(inner[2][0])[2][0])):
+    so = canon.sum_of(prog, fn.terms, inner)
+    if so is None or "arg1.nodes" not in show(so[0]):
         errs.append("or-node hash is %s, not the sum over its elements" % show(r)[:90])
     else:
-        clo = strip(inner[2][0])[2][1]
-        kids = [g for g in prog.lib_fns if isinstance(clo, tuple) and clo[0] == "agg" and g.npath == clo[2]]
-        kr = strip(kids[0].terms.ret) if kids else None
-        if not (kr and mir.is_call(kr, "value") and mir.is_call(strip(kr[2][0]), "semantic_hash") and strip(strip(kr[2][0])[2][0]) == ("param", 2)):
-            errs.append("the summand is %s, not the hash of the element" % (show(kr)[:60] if kr else "?"))
+        kr = strip(so[1])
+        if not (mir.is_call(kr, "value") and mir.is_call(strip(kr[2][0]), "semantic_hash") and strip(strip(kr[2][0])[2][0]) == canon.ELEM):
+            errs.append("the summand is %s, not the hash of the element" % show(kr)[:60])
     put(fn, "or-node", errs, "Σ over elements of the element hash")
     for adt in ("repr::bdd::BddPtr", "repr::sdd::SddPtr"):
         fn = prog.find1(name="cached_semantic_hash", self_adt=adt, unit="rsdd-lib")
@@ -171,15 +170,24 @@ def hash_definitions(prog):
                             if not _weight(x, ("(arg1 as Var).0",), fld):
                                 errs.append("a %s literal hashes to %s" % ("negative" if fld == "0" else "positive", show(x)[:50]))
         put(fn, "terminals", errs, "⊤ ↦ 1, ⊥ ↦ 0, literal ↦ weight of its polarity")
-    cl = [g for g in prog.lib_fns if g.npath.endswith("create_semantic_hash_map::{closure#0}")]
-    if len(cl) != 1:
-        raise CheckerError("SE3: weight generator closure not found")
-    g = cl[0]
-    r = strip(g.terms.ret)
+    # the (low, high) weight pair: built in a closure mapped over the variables, or in the loop that fills the table
+    top = prog.find1(name="create_semantic_hash_map", unit="rsdd-lib")
+    pairs = []
+    for g in [top] + [k for k in prog.lib_fns if k.npath.startswith(top.npath + "::{closure")]:
+        cands = [t for _, t, _ in g.terms.aggs] + ([g.terms.ret] if g.terms.ret is not None else [])
+        for t in cands:
+            t = strip(t)
+            if isinstance(t, tuple) and t and t[0] == "agg" and t[1] == "tuple" and len(t[4]) == 2 and \
+                    all(any(mir.is_call(x, "random_range") for x in mir.subterms(e)) for e in t[4]) and \
+                    not any(show(t) == show(p[1]) for p in pairs):
+                pairs.append((g, t))
     errs = []
-    if not (r[0] == "agg" and r[1] == "tuple" and len(r[4]) == 2):
-        errs.append("weights are not a (low, high) pair")
+    if len(pairs) != 1:
+        g, r = top, None
+        errs.append("?expected one (low, high) weight pair derived from a random draw, found %d" % len(pairs))
     else:
+        g, r = pairs[0]
+    if r is not None:
         lo, hi = strip(r[4][0]), strip(r[4][1])
         draws_hi = [x for x in mir.subterms(hi) if mir.is_call(x, "random_range")]
         draws_lo = [x for x in mir.subterms(lo) if mir.is_call(x, "random_range")]
@@ -188,6 +196,6 @@ def hash_definitions(prog):
         slo = show(lo)
         if not ("P SubWithOverflow" in slo and "AddWithOverflow 1" in slo):
             errs.append("low weight is %s, expected P − v + 1 (so that low + high ≡ 1)" % slo[:80])
-    out.append(inst("SE", "%s:SE3:weights-sum-to-one" % g.npath, VIOLATION if errs else OK, g, None,
-                    "; ".join(errs) if errs else "(P − v + 1, v) for one draw v: low + high ≡ 1 (mod P)"))
+    out.append(inst("SE", "%s:SE3:weights-sum-to-one" % top.npath, verdict_of(errs), g, None,
+                    errtext(errs) if errs else "(P − v + 1, v) for one draw v: low + high ≡ 1 (mod P)"))
     return out
